@@ -2,7 +2,13 @@
    Not part of _CoqProject: compiled from ocaml/extracted/ because Coq 8.16 writes the
    extracted file into the current directory. *)
 From Coq Require Import Extraction ExtrOcamlBasic.
-From LV Require Import Base.Bytes Model.Codec Spec.SmtpData.
+From LV Require Import Base.Bytes Base.Utf8 Base.Base64 Model.Codec Model.Response Model.ServerInfo
+  Model.Auth Model.Client Spec.SmtpData.
 Extraction Language OCaml.
 Extraction "model.ml"
-  Codec.encode Codec.wire SmtpData.server_data SmtpData.recv.
+  Codec.encode Codec.wire SmtpData.server_data SmtpData.recv
+  Utf8.utf8_valid Utf8.split_ws Base64.b64enc Base64.b64dec
+  Response.parse_response Response.read_line Response.wire_of
+  ServerInfo.from_response ServerInfo.xtext ServerInfo.get_auth_mechanism
+  Auth.mech_response Auth.auth_initial Auth.auth_from_response
+  Client.run_session.
